@@ -11,7 +11,7 @@ Model and check describe the REPAIRED code (ff6cf28 F11c, 0f1faec F11b, f5eca82 
 classes): quoted-trailing-backslash (what is left of F11b; also when recording), positional-eq-exported (what is
 left of F11a, fixed by 92cc1cc: a positional value that looks like NAME=value is exported as NAME by a retry/restart),
 F11d output-captures-stderr, output-exceeds-exec-string
-(streams: parse, doc, env, loop, subst, cli, restart, out) (a captured value longer than execve takes in one environment string: every later step fails
+(streams: parse, doc, env, loop, subst, cli, restart, retrycmd, out) (a captured value longer than execve takes in one environment string: every later step fails
 to start).
 """
 import base64
@@ -219,6 +219,8 @@ def monitor(c):
         return monitor_subst(c)
     if st == "restart":
         return monitor_restart(c)
+    if st == "retrycmd":
+        return monitor_retrycmd(c)
     if st == "cli":
         items = c["items"]
         classes = [item_class(it) for it in items]
@@ -264,7 +266,7 @@ def monitor(c):
             return ("a step with `output:` that prints %d bytes never finishes" % len(ob), {"class": "output-hang", "stream": "out"})
         if c.get("err"):
             return ("output run failed: %s" % c["err"], {"class": "output-run", "stream": "out"})
-        exp = go_trim(ob)
+        exp = go_trim(ob)      # of the LAST attempt of the producer (out0_b64: what its failed first attempt printed)
         # what is recorded for handlers and a later retry: exactly one entry, OUT -> OUT=TrimSpace(stdout)
         if is_utf8(ob) and c.get("entries_b64") is not None and not has_err:
             ent = {k: base64.b64decode(v) for k, v in c["entries_b64"].items()}
@@ -348,13 +350,32 @@ def monitor_restart(c):
     return None
 
 
+def monitor_retrycmd(c):
+    """`start -p` (with $C11VAR=alpha) on a DAG whose second step fails once, then the real `retry --req <id>` in a process
+    where $C11VAR=beta: the retried steps must see exactly the parameter values of the run they repeat."""
+    items = [dict(it, value=subst(it["value"], VAR1)) for it in c["items"]]
+    bad = sorted([x for x in (item_class(it) for it in c["items"]) if x], key=lambda x: 0 if x == "quoted-trailing-backslash" else 1)
+    cls0 = {"class": bad[0] if bad else "v0", "stream": "retrycmd"}
+    if c.get("hang") or c.get("err"):
+        return ("start / retry did not work: %s" % (c.get("err") or "watchdog"), cls0)
+    r = seen_mismatch(c, items, "", whos=("first",), with_args=False)
+    if r:
+        return ("first run (start -p): " + r, cls0)
+    rcl = roundtrip_class(items)
+    cls1 = {"class": "retry-values" if rcl == "v1" else rcl, "stream": "retrycmd" if rcl == "v1" else "params"}
+    r = seen_mismatch(c, items, "re-", whos=("env",))
+    if r:
+        return ("the retried steps do not see the parameters of the run they repeat (recorded %r): %s" % (c.get("recorded"), r), cls1)
+    return None
+
+
 def _short(x):
     if x is None:
         return None
     return x if len(x) <= 80 else x[:40] + b"...(%d bytes)..." % len(x) + x[-20:]
 
 
-def seen_mismatch(c, items, prefix, whos=("env", "handler")):
+def seen_mismatch(c, items, prefix, whos=("env", "handler"), with_args=True):
     """What the children saw against the given values ($i for positional items, $NAME for named ones)."""
     pr = c.get("probes") or {}
     last_named = {}
@@ -375,6 +396,8 @@ def seen_mismatch(c, items, prefix, whos=("env", "handler")):
             got = unb64(env.get(n))
             if got != b(v):
                 return "%s%s: $%s = %r, given %r" % (prefix, who, n, got, v)
+    if not with_args:
+        return None
     p = pr.get(prefix + "arg")
     if p is None or p.get("args") is None:
         return "child %sarg left no probe" % prefix
@@ -488,7 +511,7 @@ def candidates(c):
         s = c["s"]
         for i in range(len(s)):
             out.append(dict(base, s=s[:i] + s[i + 1:]))
-    elif c["stream"] in ("doc", "env", "loop", "subst", "cli", "restart"):
+    elif c["stream"] in ("doc", "env", "loop", "subst", "cli", "restart", "retrycmd"):
         its = c["items"]
         for i in range(len(its)):
             if len(its) > 1:
@@ -500,7 +523,8 @@ def candidates(c):
     elif c["stream"] == "out" and c.get("gen") != "size":
         ob = base64.b64decode(c.get("out_b64", "") or "")
         for i in range(len(ob)):
-            out.append(dict(base, s="", out_b64=base64.b64encode(ob[:i] + ob[i + 1:]).decode(), err_b64=c.get("err_b64", "")))
+            out.append(dict(base, s="", out_b64=base64.b64encode(ob[:i] + ob[i + 1:]).decode(), err_b64=c.get("err_b64", ""),
+                            out0_b64=c.get("out0_b64", "")))
         if c.get("err_b64"):
             out.append(dict(base, s="", out_b64=c.get("out_b64", ""), err_b64=""))
     return out[:60]
@@ -527,7 +551,7 @@ def slim(c):
 def nontrivial(c):
     if c["stream"] == "parse":
         return any(ch in c["s"] for ch in '"=` \\')
-    if c["stream"] in ("doc", "env", "loop", "subst", "cli", "restart"):
+    if c["stream"] in ("doc", "env", "loop", "subst", "cli", "restart", "retrycmd"):
         return any(it["kind"] != "w" or "=" in it["value"] for it in c["items"])
     return len(out_bytes(c)) > 0
 
@@ -535,9 +559,9 @@ def nontrivial(c):
 def key(c):
     if c["stream"] == "parse":
         return ("p", c["s"])
-    if c["stream"] in ("doc", "env", "loop", "subst", "cli", "restart"):
+    if c["stream"] in ("doc", "env", "loop", "subst", "cli", "restart", "retrycmd"):
         return (c["stream"], json.dumps(c["items"], sort_keys=True))
-    return ("o", c.get("gen"), c.get("size"), c.get("out_b64"), c.get("err_b64"))
+    return ("o", c.get("gen"), c.get("size"), c.get("out_b64"), c.get("err_b64"), c.get("out0_b64"))
 
 
 def judge(ctx, tool, cases, do_shrink=True):
@@ -593,7 +617,7 @@ def run(ctx, replay_cases=None):
             k = next((x for x in cl if x), "V0")
             classes[k] = classes.get(k, 0) + 1
     ctx.cov["evaluations"] = len(cases)
-    ctx.cov["traces_validated_against_impl"] = sum(1 for c in cases if c["stream"] in ("env", "loop", "out", "subst", "cli", "restart"))
+    ctx.cov["traces_validated_against_impl"] = sum(1 for c in cases if c["stream"] in ("env", "loop", "out", "subst", "cli", "restart", "retrycmd"))
     ctx.cov["distinct_nontrivial"] = len(seen)
     ctx.cov["rule"] = ("distinct = distinct input (parameter string / item list / output bytes); non-trivial = a parameter string "
                        "containing a quote, =, back-tick, backslash or space; an item list with a quoted or named item; a non-empty output")
